@@ -586,55 +586,87 @@ class XPathToken(Token[ta.XPathTokenType]):
             left_values = self._items[0].atomization(context)
             right_values = self._items[1].atomization(context)
 
+        ordering = self.symbol in ('<', '<=', '>', '>=')
         for op1, op2 in product(left_values, right_values):
-            match op1:
-                case str() | AnyURI():
-                    if not isinstance(op2, (str, UntypedAtomic, AnyURI)):
-                        raise TypeError(msg.format(type(op1), type(op2)))
-                case UntypedAtomic():
-                    if isinstance(op2, UntypedAtomic):
-                        yield op1.value, op2.value  # two untyped values are compared as strings
-                        continue
-                case bool():
-                    if isinstance(op2, (str, Integer, AbstractQName, AnyURI)):
-                        raise TypeError(msg.format(type(op1), type(op2)))
-                case Integer():
-                    if isinstance(op2, (str, AbstractQName, AnyURI, bool)):
-                        raise TypeError(msg.format(type(op1), type(op2)))
-                    elif isinstance(op2, float):
-                        yield get_double(op1), op2  # numeric promotion to xs:double
-                        continue
-                case float():
-                    if isinstance(op2, decimal.Decimal) or \
-                            isinstance(op2, Integer) and not isinstance(op2, bool):
-                        yield op1, get_double(op2)
-                        continue
-                    elif isinstance(op2, (str, AbstractQName, AnyURI, bool)):
-                        raise TypeError(msg.format(type(op1), type(op2)))
-                case decimal.Decimal():
-                    if isinstance(op2, float):
-                        yield get_double(op1), op2
-                        continue
-                    elif isinstance(op2, (str, AbstractQName, AnyURI, bool)):
-                        raise TypeError(msg.format(type(op1), type(op2)))
-                case AbstractQName():
-                    if not isinstance(op2, (AbstractQName, UntypedAtomic)):
-                        raise TypeError(msg.format(type(op1), type(op2)))
-                case AbstractDateTime():
-                    if self.symbol in ('<', '<=', '>', '>=') and \
-                            op1.name in ('gYear', 'gYearMonth', 'gMonth', 'gMonthDay', 'gDay'):
-                        raise TypeError(f"the values of type xs:{op1.name} are not ordered")
-                    if isinstance(op2, AbstractDateTime) and \
-                            context is not None and context.timezone is not None:
-                        # values without timezone are compared in the implicit timezone
-                        if op1.tzinfo is None:
-                            op1 = copy(op1)
-                            op1.tzinfo = context.timezone
-                        if op2.tzinfo is None:
-                            op2 = copy(op2)
-                            op2.tzinfo = context.timezone
+            if isinstance(op1, UntypedAtomic):
+                if isinstance(op2, UntypedAtomic):
+                    yield op1.value, op2.value  # two untyped values are compared as strings
+                    continue
+                op1 = self.cast_untyped_operand(op1, op2)
+            elif isinstance(op2, UntypedAtomic):
+                op2 = self.cast_untyped_operand(op2, op1)
 
+            # The pairs are compared by the corresponding value comparison, that is
+            # defined only for comparable types (numeric promotion to xs:double).
+            if isinstance(op1, bool) or isinstance(op2, bool):
+                comparable = isinstance(op1, bool) and isinstance(op2, bool)
+            elif isinstance(op1, (int, float, decimal.Decimal)):
+                comparable = isinstance(op2, (int, float, decimal.Decimal))
+                if comparable and (isinstance(op1, float) or isinstance(op2, float)) \
+                        and type(op1) is not type(op2):
+                    op1, op2 = get_double(op1), get_double(op2)
+            elif isinstance(op1, (str, AnyURI)):
+                comparable = isinstance(op2, (str, AnyURI))
+            elif isinstance(op1, AbstractQName):
+                comparable = isinstance(op2, AbstractQName)
+            elif isinstance(op1, AbstractDateTime):
+                comparable = isinstance(op2, AbstractDateTime) and (
+                    isinstance(op1, type(op2)) or isinstance(op2, type(op1))
+                )
+                if ordering and \
+                        op1.name in ('gYear', 'gYearMonth', 'gMonth', 'gMonthDay', 'gDay'):
+                    raise TypeError(f"the values of type xs:{op1.name} are not ordered")
+                if comparable and context is not None and context.timezone is not None:
+                    # values without timezone are compared in the implicit timezone
+                    if op1.tzinfo is None:
+                        op1 = copy(op1)
+                        op1.tzinfo = context.timezone
+                    if op2.tzinfo is None:
+                        op2 = copy(op2)
+                        op2.tzinfo = context.timezone
+            elif isinstance(op1, Duration):
+                if not isinstance(op2, Duration):
+                    comparable = False
+                elif not ordering:
+                    comparable = True
+                else:
+                    comparable = type(op1) is not Duration and type(op2) is not Duration and (
+                        isinstance(op1, type(op2)) or isinstance(op2, type(op1))
+                    )
+            elif isinstance(op1, AnyAtomicType):
+                comparable = isinstance(op1, type(op2)) or isinstance(op2, type(op1))
+            else:
+                comparable = True
+
+            if not comparable:
+                raise TypeError(msg.format(type(op1), type(op2)))
             yield op1, op2
+
+    def cast_untyped_operand(self, value: UntypedAtomic, other: Any) -> Any:
+        """
+        Casts an xs:untypedAtomic operand of a general comparison: to xs:double
+        if the other operand is numeric, otherwise to the type of the other operand.
+        """
+        xsd_version = self.parser.xsd_version
+        match other:
+            case bool():
+                if value.value.strip() not in ('true', 'false', '1', '0'):
+                    raise ValueError("{!r} cannot be cast to xs:boolean".format(value.value))
+                return value.value.strip() in ('1', 'true')
+            case int() | float() | decimal.Decimal():
+                return get_double(value.value, xsd_version)
+            case str():
+                return value.value
+            case AnyAtomicType():
+                try:
+                    if hasattr(other, 'make'):
+                        return type(other).make(value.value, parser=self.parser)
+                    return type(other)(value.value)
+                except ArithmeticError:
+                    msg = "{!r} cannot be cast to {!r}"
+                    raise ValueError(msg.format(value.value, type(other))) from None
+            case _:
+                return value
 
     def get_operands(self, context: ta.ContextType, cls: type[Any] | None = None) -> Any:
         """
